@@ -36,6 +36,7 @@
 using namespace verif;
 namespace IR = Oomd::Config2::IR;
 
+static std::string g_rsName = "r0", g_dgName = "g0";
 // ---------------------------------------------------------------- wrapper plugin
 // Forwards everything to a real plugin created from the registry and logs run entry / result.
 class WrapPlugin : public Oomd::Engine::BasePlugin {
@@ -57,7 +58,8 @@ class WrapPlugin : public Oomd::Engine::BasePlugin {
     long long dl = -1;
     if (ac.prekill_hook_timeout_ts)
       dl = std::chrono::duration_cast<std::chrono::milliseconds>(ac.prekill_hook_timeout_ts->time_since_epoch()).count();
-    evEmit(J().str("e", "KRun").num("deadline", dl).str("rs", ac.ruleset_name).str("dg", ac.detectorgroup)
+    evEmit(J().str("e", "KRun").num("deadline", dl).str("rs", ac.ruleset_name == g_rsName ? "r0" : "?" + ac.ruleset_name.substr(0, 20))
+               .str("dg", ac.detectorgroup == g_dgName ? "g0" : "?" + ac.detectorgroup.substr(0, 20))
                .boolean("hasRs", ctx.getInvokingRuleset().has_value()).num("t", vclockNowMs()));
     auto r = inner_->run(ctx);
     static const char* names[] = {"CONTINUE", "STOP", "ASYNC"};
@@ -321,8 +323,14 @@ int main(int argc, char** argv) {
     // ----- engine
     IR::Root root;
     IR::Ruleset rs;
-    rs.name = "r0";
-    IR::DetectorGroup dg; dg.name = "g0";
+    // sometimes the ruleset and detector group carry very long names (no spaces): the kill record then exceeds 1 KiB and
+    // must still name cgroup, ruleset, detector group and plugin (and "(dry)") in one line; events report them as r0 / g0
+    bool longNames = r.chance(12);
+    const std::string rsName = longNames ? "r0" + std::string(470, 'R') : "r0";
+    const std::string dgName = longNames ? "g0" + std::string(470, 'G') : "g0";
+    g_rsName = rsName; g_dgName = dgName;
+    rs.name = rsName;
+    IR::DetectorGroup dg; dg.name = dgName;
     IR::Detector det; det.name = kDetName; det.args["id"] = "d"; dg.detectors.push_back(det);
     rs.dgs.push_back(dg);
     IR::Action act; act.name = "verif_wrap"; act.args["inner"] = D.plugin;
@@ -440,6 +448,7 @@ int main(int argc, char** argv) {
         for (auto& x : tok) { if (x.rfind("killer:", 0) == 0) killer = x.substr(7); if (x.rfind("ruleset:[", 0) == 0) rsn = x.substr(9, x.size() - 10); if (x.rfind("detectorgroup:[", 0) == 0) dgn = x.substr(15, x.size() - 16); }
         bool isDry = killer.rfind("(dry)", 0) == 0;
         if (isDry) killer = killer.substr(5);
+        rsn = rsn == g_rsName ? "r0" : "?" + rsn.substr(0, 20); dgn = dgn == g_dgName ? "g0" : "?" + dgn.substr(0, 20);
         evEmit(J().str("e", "Kmsg").raw("p", pathChars(cg)).str("plugin", killer).boolean("dry", isDry).str("rs", rsn).str("dg", dgn)
                    .boolean("prefixOk", data.rfind("oomd kill: ", 0) == 0));
         return;
